@@ -397,31 +397,10 @@ func buildUpdatedFields(input *TaskInput) []string {
 func applySetUpdates(dir string, opts GlobalOptions, id string, updates map[string]string, agentID string, quiet bool) error {
 	lockPath := filepath.Join(dir, "lock")
 	eventsPath := getEventsPath(dir)
+	repoDir := filepath.Dir(dir)
 
-	// Handle result.path + result.summary (requires file I/O before lock)
-	resultPath, hasPath := updates["result.path"]
-	resultSummary, hasSummary := updates["result.summary"]
-	if hasPath || hasSummary {
-		if !hasPath {
-			return errors.New("result.summary requires result.path=")
-		}
-		if !hasSummary {
-			return errors.New("result.path requires result.summary=")
-		}
-		if err := writeResultEvent(dir, opts, id, resultSummary, resultPath); err != nil {
-			return err
-		}
-		delete(updates, "result.path")
-		delete(updates, "result.summary")
-		// If no other updates, we're done
-		if len(updates) == 0 {
-			if !quiet {
-				fmt.Println(id)
-			}
-			return nil
-		}
-	}
-
+	// A result attachment and the remaining fields are validated and written
+	// together, under one lock: the command applies all of its fields or none.
 	return withLock(lockPath, syscall.LOCK_EX, func() error {
 		graph, err := loadGraph(dir)
 		if err != nil {
@@ -455,19 +434,9 @@ func applySetUpdates(dir string, opts GlobalOptions, id string, updates map[stri
 
 		now := time.Now().UTC()
 
-		// Build events using pure function, passing I/O-dependent body resolver
-		events, remainingUpdates, err := buildSetEvents(id, task, updates, agentID, now, identityBodyResolver)
+		events, err := buildUpdateEvents(repoDir, id, task, updates, agentID, now)
 		if err != nil {
 			return err
-		}
-
-		// Check for any unhandled keys
-		if len(remainingUpdates) > 0 {
-			var unknown []string
-			for key := range remainingUpdates {
-				unknown = append(unknown, key)
-			}
-			return fmt.Errorf("unknown keys: %s", strings.Join(unknown, ", "))
 		}
 
 		if err := appendEvents(eventsPath, events); err != nil {
